@@ -124,6 +124,10 @@ func (c *Collection) Update(id string, msg proto.Message, opts ...WriteOption) (
 				if writeRequest.idCallback != nil {
 					writeRequest.idCallback(id)
 				}
+				if c.idInterceptor != nil {
+					// store the item where Get, Update and Delete will look for the reported id
+					id = c.idInterceptor(id)
+				}
 			}
 
 			val, exists := c.byId[id]
